@@ -373,6 +373,7 @@ class HttpStreamSession:
         "_on_log",
         "_output_schema",
         "_pending_batches",
+        "_pending_error",
         "_retry_config",
         "_state_bytes",
         "_url_prefix",
@@ -395,6 +396,7 @@ class HttpStreamSession:
         header: object | None = None,
         retry_config: HttpRetryConfig | None = None,
         compression_level: int | None = None,
+        pending_error: RpcError | None = None,
     ) -> None:
         """Initialize with HTTP client, method details, and initial state."""
         self._client = client
@@ -411,6 +413,10 @@ class HttpStreamSession:
         self._external_config = external_config
         self._ipc_validation = ipc_validation
         self._pending_batches: list[AnnotatedBatch] = pending_batches or []
+        # A stream error that arrived in the init response behind a header or
+        # data batches: raised once those have been handed to the caller, the
+        # point at which the pipe transports raise it.
+        self._pending_error = pending_error
         self._finished = finished
         self._header = header
         self._retry_config = retry_config
@@ -533,6 +539,9 @@ class HttpStreamSession:
             RpcError: If the server reports an error or the stream has finished.
 
         """
+        if self._pending_error is not None:
+            err, self._pending_error = self._pending_error, None
+            raise err
         if self._state_bytes is None:
             raise RpcError("ProtocolError", "Stream has finished — no state token available", "")
 
@@ -624,6 +633,10 @@ class HttpStreamSession:
         yield from self._pending_batches
         self._pending_batches.clear()
 
+        if self._pending_error is not None:
+            err, self._pending_error = self._pending_error, None
+            raise err
+
         if self._finished:
             return
 
@@ -698,6 +711,10 @@ class HttpStreamSession:
                 raise RuntimeError(_multi)
             return self._pending_batches.pop(0), self._resume_token()
 
+        if self._pending_error is not None:
+            err, self._pending_error = self._pending_error, None
+            raise err
+
         if self._finished or self._state_bytes is None:
             self._finished = True
             return None, None
@@ -757,6 +774,7 @@ class HttpStreamSession:
         """
         self._state_bytes, self._call_state_bytes = _decode_resume_token(token)
         self._pending_batches = []
+        self._pending_error = None
         self._finished = False
 
     def close(self) -> None:
@@ -1000,6 +1018,7 @@ def _init_http_stream_session(
     state_bytes: bytes | None = None
     call_state_bytes: bytes | None = None
     pending_batches: list[AnnotatedBatch] = []
+    pending_error: RpcError | None = None
     finished = False
 
     try:
@@ -1032,11 +1051,19 @@ def _init_http_stream_session(
                 batch, custom_metadata, external_config, on_log, reader.ipc_validation
             )
             pending_batches.append(AnnotatedBatch(batch=resolved_batch, custom_metadata=resolved_cm))
-    except RpcError:
+    except RpcError as exc:
         _drain_stream(reader)
-        raise
-
-    _drain_stream(reader)
+        # The init response of a producer also carries its first turn(s). An
+        # error behind a header or behind data batches is therefore a *stream*
+        # error, not an init error: hand over what preceded it and raise it
+        # from iteration, as the pipe transports do, instead of discarding
+        # output the worker already produced.
+        if header is None and not pending_batches:
+            raise
+        pending_error = exc
+        finished = True
+    else:
+        _drain_stream(reader)
 
     return HttpStreamSession(
         client=client,
@@ -1053,6 +1080,7 @@ def _init_http_stream_session(
         header=header,
         retry_config=retry_config,
         compression_level=compression_level,
+        pending_error=pending_error,
     )
 
 
